@@ -150,7 +150,8 @@ def check(prog, res, tier):
             if c == 1:
                 it.user['end_of_data'] = True
                 raise __import__('cardverif.signals', fromlist=['Raised']).Raised(ExcV(StopIteration, [], node=node, stack=it.stack))
-            r = it.sym_bytes('row', lo=300, tags=WIRE)
+            # a data row is at least its common header fields long (19 bytes expanded, 11 compressed)
+            r = it.sym_bytes('row', lo=19 if expanded else 11, tags=WIRE)
             it.user.setdefault('rows', []).append(r)
             return r
 
@@ -211,6 +212,25 @@ def check(prog, res, tier):
             seen_b.get(('full', tag)), 'a value stored in the row dictionary under a configured column name'))
 
         def chk_n(p, mode, expanded=expanded):
+            if p.outcome == 'loopback' and p.interp.user.get('rows'):
+                # a row is passed over: only after its table id was compared with the requested one (and differed)
+                it_ = p.interp
+                tid_ = it_.user['tid']
+                compared = any(kind == 'seq-eq' and (d['a'] is tid_ or d['b'] is tid_ or seqops.seq_eq_structural(it_, d['a'], tid_)
+                                                    or seqops.seq_eq_structural(it_, d['b'], tid_)) for kind, t, d in p.facts)
+                if not compared:
+                    return [definite('a row is skipped without its table id having been compared with the requested table: rows of '
+                                     'the requested table can be dropped', getattr(p.value, 'lineno', None) and p.value)]
+                return []
+            if mode == 'unroll' and p.outcome in ('return', 'raise') and len(p.interp.user.get('rows', [])) >= 1:
+                it_ = p.interp
+                tid_ = it_.user['tid']
+                ncmp = sum(1 for kind, t, d in p.facts if kind == 'seq-eq' and (
+                    d['a'] is tid_ or d['b'] is tid_ or seqops.seq_eq_structural(it_, d['a'], tid_) or seqops.seq_eq_structural(it_, d['b'], tid_)))
+                lib_raise = p.outcome == 'raise' and exc_key(p.value.cls) == MLIB
+                if ncmp < len(it_.user['rows']) and not lib_raise:
+                    return [definite(f'{len(it_.user["rows"])} rows are read but only {ncmp} table ids are compared with the requested table: '
+                                     f'a row is passed over unseen, rows of the requested table can be dropped')]
             if p.outcome != 'return':
                 if p.outcome == 'raise' and exc_key(p.value.cls) not in (STOP, MLIB):
                     return [definite(f'__next__ raises {p.value!r}')]
@@ -325,8 +345,10 @@ def check(prog, res, tier):
         tid = seqops.lit('IP0040T1' if has_cfg else 'IP9999T1')
         if has_cfg:
             cfg.items['IP0040T1'] = DictV(items={'c': DictV(items={'start': IntV(19), 'end': IntV(22)})})
-        it.user.update(has_cfg=has_cfg)
-        return it.instantiate(ci, [f, tid], {'param_config': cfg, 'encoding': codec(it)}, None)
+        # both representations: the expanded one needs the index trailer as much as the compressed one
+        expanded = it.choose(2, 'compressed / expanded extract') == 1
+        it.user.update(has_cfg=has_cfg, expanded=expanded)
+        return it.instantiate(ci, [f, tid], {'param_config': cfg, 'encoding': codec(it), 'expanded': ConstV(expanded)}, None)
     runs_i = Runs(prog, entry_i, summaries={'mciipm.VbsReader.__next__': vbs_next2}, res=res)
 
     def trailer_seen(p, since=0, until=None):
